@@ -440,82 +440,107 @@ def run_map(v, desc, scratch, keys):
             continue
         w0 = dict(case=mapgen.describe(case))
         outs = [o for f in case["funcs"] for o in f["outs"]]
-        for kind in ("copy", "pickle", "rename", "scope"):
-            names = {n: n for n in list(case["roots"]) + outs}
-            try:
-                with quiet():
-                    if kind == "copy":
-                        q = p0.copy()
-                    elif kind == "pickle":
-                        q = cloudpickle.loads(cloudpickle.dumps(p0))
-                    elif kind == "rename":
-                        q = p0.copy()
-                        ren = {n: f"{n}_R" for n in names if rng.random() < 0.7} or {outs[-1]: outs[-1] + "_R"}
-                        q.update_renames(ren)
-                        names = {n: ren.get(n, n) for n in names}
-                    else:
-                        q = p0.copy()
-                        q.update_scope("sc", "*", "*")
-                        names = {n: f"sc.{n}" for n in names}
-                    ish2 = {names[k]: x for k, x in (ish or {}).items()} or None
-                    r = q.map({names[k]: x for k, x in inputs.items()}, run_folder=os.path.join(scratch, f"m{i}{kind}"), internal_shapes=ish2,
-                              parallel=False, storage="dict")
-            except Exception as e:  # noqa: BLE001
-                v.bad(exc_sig(e, f"map-after:{kind}"), f"map of the rewritten pipeline raised: {exc_msg(e)}", rewrite=kind, **w0)
-                continue
-            v.count(f"map_rewrite:{kind}")
-            for o in outs:
-                v.count("map_values_compared")
-                if names[o] not in r or probes.render(r[names[o]].output) != probes.render(env[o]):
-                    v.bad(f"map-value-after:{kind}", f"{o} differs after {kind}", got=probes.render(r[names[o]].output)[:300] if names[o] in r else None,
-                          expected=probes.render(env[o])[:300], **w0)
-                    break
-            keys.append(f"{mapgen.signature(case)}|map|{kind}")
-        # add_mapspec_axis on a scalar root
-        scal = [r for r, s in case["roots"].items() if s["kind"] == "scalar"]
+        scal = [r for r, s_ in case["roots"].items() if s_["kind"] == "scalar"]
+        chains = [[k] for k in ("copy", "pickle", "rename", "scope", "join", "or")]
         if scal:
-            pname = scal[0]
-            vals = [f"{pname}val{n}" for n in range(3)]
-            try:
-                with quiet():
-                    q = p0.copy()
-                    q.add_mapspec_axis(pname, axis="zz")
-                    r = q.map({**inputs, pname: vals}, run_folder=os.path.join(scratch, f"ax{i}"), internal_shapes=ish, parallel=False, storage="dict")
-            except Exception as e:  # noqa: BLE001
-                v.bad(exc_sig(e, "add_mapspec_axis"), f"add_mapspec_axis({pname}) / map raised: {exc_msg(e)}", **w0)
+            chains.append(["axis"])
+        pool = ["copy", "pickle", "rename", "scope", "join", "or"] + (["axis", "axis"] if scal else [])
+        for _ in range(3):  # sequences of rewrites (order matters): e.g. axis -> join, rename -> axis -> pickle
+            ch = []
+            for _k in range(rng.randint(2, 3)):
+                cand = [k for k in pool if not (k in ("scope", "axis", "join", "or") and k in ch) and not (k in ("join", "or") and ("join" in ch or "or" in ch))]
+                ch.append(rng.choice(cand))
+            chains.append(ch)
+        for chain in chains:
+            map_chain(v, case, p0, env, inputs, ish, outs, chain, scal, rng, scratch, f"{i}-{'-'.join(chain)}", w0)
+            keys.append(f"{mapgen.signature(case)}|map|{'+'.join(chain)}")
+
+
+def map_chain(v, case, p0, env, inputs, ish, outs, chain, scal, rng, scratch, tag, w0):
+    """Apply the rewrites of `chain` in order to (a copy of) p0, map the result and compare with the denotation
+    ("axis" = add_mapspec_axis on a scalar root: slice n of every dependent output == result for the n-th value)."""
+    import cloudpickle
+    from pipefunc import PipeFunc, Pipeline
+
+    names = {n: n for n in list(case["roots"]) + outs}
+    w = dict(w0, rewrites=chain)
+    label = "+".join(chain)
+    pname, vals = (scal[0], [f"{scal[0]}val{n}" for n in range(3)]) if "axis" in chain else (None, None)
+    extra_inputs = {}
+    try:
+        with quiet():
+            q = p0.copy()
+            for step, kind in enumerate(chain):
+                if kind == "copy":
+                    q = q.copy()
+                elif kind == "pickle":
+                    q = cloudpickle.loads(cloudpickle.dumps(q))
+                elif kind == "rename":
+                    ren = {n: f"{n}_R{step}" for n in names if rng.random() < 0.7} or {outs[-1]: outs[-1] + f"_R{step}"}
+                    q.update_renames({names[n]: (names[n].split(".")[0] + "." if "." in names[n] else "") + new for n, new in ren.items()})
+                    names = {n: ((names[n].split(".")[0] + "." if "." in names[n] else "") + ren[n] if n in ren else names[n]) for n in names}
+                elif kind == "scope":
+                    q.update_scope("sc", "*", "*")
+                    names = {n: f"sc.{x}" for n, x in names.items()}
+                elif kind in ("join", "or"):
+                    other = Pipeline([PipeFunc(probes.make_probe(f"zx{step}", ["zin"], 1), f"zout{step}")])
+                    q = q.join(other) if kind == "join" else (q | other)
+                    extra_inputs["zin"] = "Z"
+                    names["zin"], names[f"zout{step}"] = "zin", f"zout{step}"
+                elif kind == "axis":
+                    q.add_mapspec_axis(names[pname], axis="zz")
+            ish2 = {names[k]: x for k, x in (ish or {}).items()} or None
+            inp = {names[k]: x for k, x in inputs.items()}
+            if pname:
+                inp[names[pname]] = vals
+            inp.update({names[k]: x for k, x in extra_inputs.items()})
+            r = q.map(inp, run_folder=os.path.join(scratch, f"m{tag}"), internal_shapes=ish2, parallel=False, storage="dict")
+    except Exception as e:  # noqa: BLE001
+        v.bad(exc_sig(e, f"map-after:{label}"), f"map of the rewritten pipeline raised: {exc_msg(e)}", **w)
+        return
+    v.count(f"map_rewrite:{label}" if len(chain) == 1 else "map_rewrite:sequences")
+    if pname is None:
+        for o in outs:
+            v.count("map_values_compared")
+            if names[o] not in r or probes.render(r[names[o]].output) != probes.render(env[o]):
+                v.bad(f"map-value-after:{label}", f"{o} differs after {label}", got=probes.render(r[names[o]].output)[:300] if names[o] in r else None,
+                      expected=probes.render(env[o])[:300], **w)
+                break
+        return
+    v.count("add_mapspec_axis_runs")
+    dependent = set()
+    for f in case["funcs"]:
+        if pname in f["params"] or any(p_ in dependent for p_ in f["params"]):
+            dependent.update(f["outs"])
+    per = [mapgen.oracle(case, {**inputs, pname: val})[0] for val in vals]
+    for f in case["funcs"]:
+        for o in f["outs"]:
+            if names[o] not in r:
+                v.bad(f"map-value-after:{label}", f"{o} missing after {label}", **w)
                 continue
-            v.count("add_mapspec_axis_runs")
-            dependent = set()
-            for f in case["funcs"]:
-                if pname in f["params"] or any(p in dependent for p in f["params"]):
-                    dependent.update(f["outs"])
-            per = [mapgen.oracle(case, {**inputs, pname: val})[0] for val in vals]
-            for f in case["funcs"]:
-                for o in f["outs"]:
-                    got = r[o].output
-                    if o not in dependent:
-                        if probes.render(got) != probes.render(env[o]):
-                            v.bad("add_mapspec_axis:independent-output-changed", f"{o} does not depend on {pname} but changed", **w0)
-                        continue
-                    arr = np.asarray(got, dtype=object) if not isinstance(got, np.ndarray) else got
-                    exp0 = per[0][o]
-                    base_rank = np.ndim(exp0) if isinstance(exp0, np.ndarray) else 0
-                    v.count("lifted_outputs_compared")
-                    if np.ndim(arr) != base_rank + 1:
-                        v.bad("add_mapspec_axis:rank", f"{o}: lifted rank {np.ndim(arr)}, expected {base_rank + 1}", **w0)
-                        continue
-                    # the new axis position: try every axis, one must match for all n (the property does not fix the position)
-                    ok_any = False
-                    for axpos in range(arr.ndim):
-                        if arr.shape[axpos] != 3:
-                            continue
-                        if all(probes.render(np.take(arr, n, axis=axpos)) == probes.render(per[n][o]) for n in range(3)):
-                            ok_any = True
-                            break
-                    if not ok_any:
-                        v.bad("add_mapspec_axis:slice-differs", f"{o}: no axis of the lifted result has slice n == result for {pname} = p[n]",
-                              got=probes.render(arr)[:300], expected0=probes.render(per[0][o])[:200], **w0)
-            keys.append(f"{mapgen.signature(case)}|add_mapspec_axis")
+            got = r[names[o]].output
+            if o not in dependent:
+                if probes.render(got) != probes.render(env[o]):
+                    v.bad(f"add_mapspec_axis:independent-output-changed/{label}", f"{o} does not depend on {pname} but changed", **w)
+                continue
+            arr = np.asarray(got, dtype=object) if not isinstance(got, np.ndarray) else got
+            exp0 = per[0][o]
+            base_rank = np.ndim(exp0) if isinstance(exp0, np.ndarray) else 0
+            v.count("lifted_outputs_compared")
+            if np.ndim(arr) != base_rank + 1:
+                v.bad(f"add_mapspec_axis:rank/{label}", f"{o}: lifted rank {np.ndim(arr)}, expected {base_rank + 1}", **w)
+                continue
+            # the new axis position: try every axis, one must match for all n (the property does not fix the position)
+            ok_any = False
+            for axpos in range(arr.ndim):
+                if arr.shape[axpos] != 3:
+                    continue
+                if all(probes.render(np.take(arr, n, axis=axpos)) == probes.render(per[n][o]) for n in range(3)):
+                    ok_any = True
+                    break
+            if not ok_any:
+                v.bad(f"add_mapspec_axis:slice-differs/{label}", f"{o}: no axis of the lifted result has slice n == result for {pname} = p[n]",
+                      got=probes.render(arr)[:300], expected0=probes.render(per[0][o])[:200], **w)
 
 
 def run_case(desc):
